@@ -99,6 +99,11 @@ def main(argv=None):
                 "rechecked": rechecked,
                 "violations": V,
             }
+            if result.get("kind") == "group":
+                line["sched_sig"] = core.digest(result["out"]["schedule"])[:16]
+                line["yields"] = result["out"]["yields"]
+                line["switches"] = len(result["out"]["schedule"]["switches"])
+                line["callers"] = len(result["members"])
             if V:
                 clause = V[0]["clause"]
                 mini, evals = (world, 0)
@@ -111,7 +116,7 @@ def main(argv=None):
                     shrunk_clauses.add(clause)
                 if not a.no_shrink and full:
                     try:
-                        mini, evals = shrink(spec, world, clause)
+                        mini, evals = shrink(spec, spec.prepare_for_shrink(world, result), clause)
                     except Exception:  # noqa: BLE001
                         mini, evals = world, -1
                 replay = {
